@@ -20,7 +20,7 @@ TRUSTED = ["numpy.einsum evaluation of a network over its outer labels (times 10
            "axis permutations are produced with numpy.transpose + Tensor.modify(data, inds) (same label set: maps untouched)"]
 ASSUMPTIONS = [
     "domain = the argument table in drivers/c03.py (1-10 cases per method) on 19 small receivers; dtypes f64/c128 (thorough: "
-    "+ f32/c64, 3 seeds); tolerances: double rtol 1e-7 / atol 1e-9, single 2e-3 / 2e-4, multiplied by 1e3-1e6 for iterative "
+    "+ f32/c64, 4 seeds); tolerances: double rtol 1e-7 / atol 1e-9, single 2e-3 / 2e-4, multiplied by 1e3-1e6 for iterative "
     "or truncating routines",
     "a case refused (exception) by BOTH spellings is outside the method's domain for that receiver: counted as rejection, "
     "the receiver must still be unchanged; refused by the plain spelling only = violation",
